@@ -185,3 +185,156 @@ theorem ex_ranked : MetaRanked exApropos := by
     split <;> (try split) <;> (try split) <;> omega
 
 end Rtosc.Save.Example
+
+/-! ### a second concrete application: a sub-tree enabled by a toggle of its own -/
+namespace Rtosc.Save.SelfExample
+open Rtosc.Save Rtosc.Save.Example
+
+/-- A sub-tree enabled by a toggle of its own:
+      /s/    rRecur(s, rEnabledBy(s/t))
+      /s/t   rToggle, rDefault(false)
+      /s/a   rParamI, rDefault(5)        (visible while /s/t is on) -/
+def sParams : List Param := [
+  { addr := "/s/t".toList, kind := .tog, dflt := .const (.bool false), guards := [], anc := [], canon := .bool false },
+  { addr := "/s/a".toList, kind := .int none none, dflt := .const (.int 5), guards := [(0, false)], anc := [0],
+    canon := .int 5 } ]
+
+def sApropos (p : Path) : Option DepMeta :=
+  if p = "/s/".toList then some ⟨some "s/t".toList, none, none⟩ else none
+
+def sApp : App := { name := "self".toList, params := sParams, walk := [.scalar 1, .scalar 0], apropos := sApropos }
+
+theorem s_size : sApp.size = 2 := rfl
+
+set_option maxRecDepth 4000 in
+theorem s_wf : sApp.WF where
+  addr_nodup := by decide
+  anc_lt := by decide
+  anc_closed := by decide
+  anc_chain := by decide
+  guards_anc := by decide
+  preset_anc := by
+    intro i hi par tbl fb h
+    have : i = 0 ∨ i = 1 := by rw [s_size] at hi; omega
+    rcases this with rfl | rfl <;> cases h
+  kind_ok := by
+    intro i hi
+    have : i = 0 ∨ i = 1 := by rw [s_size] at hi; omega
+    rcases this with rfl | rfl <;> simp [App.param, sApp, sParams, KindOK]
+  dflt_storable := by
+    intro i hi
+    have : i = 0 ∨ i = 1 := by rw [s_size] at hi; omega
+    rcases this with rfl | rfl <;> (unfold Storable; decide)
+  canon_ok := by
+    intro i hi
+    have : i = 0 ∨ i = 1 := by rw [s_size] at hi; omega
+    rcases this with rfl | rfl <;> rfl
+  walk_tiles := ⟨[.scalar 0, .scalar 1], List.Perm.swap (Item.scalar 1) (Item.scalar 0) [], by simp [Tiling, Item.lo, Item.hi, s_size]⟩
+  item_addr_nodup := by decide
+  array_ok := by
+    intro base first len h
+    simp [sApp] at h
+
+/-- the toggle's own path is found along its address, and dropped: it does not wait for itself -/
+theorem s_raw_t : rawRefs sApropos "/s/t".toList = ["/s/t".toList] := by decide
+theorem s_refs_t : refsOf sApropos "/s/t".toList = [] := by decide
+theorem s_refs_a : refsOf sApropos "/s/a".toList = ["/s/t".toList] := by decide
+theorem s_refs_s : refsOf sApropos "/s/".toList = ["/s/s/t".toList, "/s/t".toList] := by decide
+
+theorem s_covers : sApp.MetaCovers := by
+  constructor
+  · intro d hd a ha
+    have : d = 0 ∨ d = 1 := by rw [s_size] at hd; omega
+    rcases this with rfl | rfl
+    · simp [App.param, sApp, sParams] at ha
+    · simp [App.param, sApp, sParams] at ha
+      subst ha
+      left
+      show "/s/t".toList ∈ refsOf sApropos "/s/a".toList
+      rw [s_refs_a]; simp
+  · intro base first len h
+    simp [sApp] at h
+
+theorem s_apropos_self (q : Path) : sApropos (q ++ selfName) = none := by
+  unfold sApropos
+  have h2 : q ++ selfName ≠ "/s/".toList := by
+    intro h
+    have := congrArg List.reverse h
+    simp [selfName] at this
+  rw [if_neg h2]
+
+theorem s_selfMeta (l : Path) : selfMeta sApropos l = none := by
+  unfold selfMeta
+  rw [s_apropos_self]
+
+theorem s_apropos_slash (p : Path) (m : DepMeta) (h : sApropos (p ++ ['/']) = some m) :
+    p = "/s".toList ∧ m = ⟨some "s/t".toList, none, none⟩ := by
+  unfold sApropos at h
+  split at h
+  · rename_i h2
+    have := congrArg List.reverse h2
+    simp at this
+    have hp : p = "/s".toList := by
+      have := congrArg List.reverse this
+      simpa using this
+    cases h
+    exact ⟨hp, rfl⟩
+  · cases h
+
+theorem s_meta_refs : ∀ Y ∈ metaRefs ⟨some "s/t".toList, none, none⟩ "/s".toList, Y = "/s/t".toList := by decide
+
+theorem s_refs_other (X : Path) (h2 : X ≠ "/s/".toList) :
+    ∀ Y ∈ refsOf sApropos X, Y = "/s/t".toList ∧ X ≠ "/s/t".toList := by
+  intro Y hY0
+  have hne : Y ≠ X := by simpa using (List.mem_filter.1 hY0).2
+  have hY := (List.mem_filter.1 hY0).1
+  clear hY0
+  suffices h : Y = "/s/t".toList from ⟨h, fun hx => hne (h.trans hx.symm)⟩
+  unfold rawRefs lvlArgs at hY
+  cases hl : levels (X.length + 1) X with
+  | nil => rw [hl] at hY; simp at hY
+  | cons l r =>
+    rw [hl] at hY
+    have hlX := levels_head _ _ _ _ hl
+    subst hlX
+    simp only [List.flatMap_cons, List.mem_append, List.mem_flatMap, List.mem_map, refsAt, s_selfMeta,
+      List.append_nil] at hY
+    rcases hY with hY | ⟨la, ⟨p, _, rfl⟩, hY⟩
+    · have : sApropos l = none := by
+        unfold sApropos
+        rw [if_neg h2]
+      simp [this] at hY
+    · simp only at hY
+      cases hm : sApropos (p ++ ['/']) with
+      | none => simp [hm] at hY
+      | some m =>
+        obtain ⟨hp, hm'⟩ := s_apropos_slash p m hm
+        subst hp; subst hm'
+        rw [hm] at hY
+        exact s_meta_refs Y hY
+
+def sRank (X : Path) : Nat :=
+  if X = "/s/t".toList then 0 else if X = "/s/".toList then 2 else 1
+
+theorem s_ranked : MetaRanked sApropos := by
+  refine ⟨sRank, ?_, ?_⟩
+  · intro X Y hY
+    by_cases hs : X = "/s/".toList
+    · subst hs; rw [s_refs_s] at hY; simp at hY; rcases hY with rfl | rfl <;> decide
+    · obtain ⟨hYt, hXt⟩ := s_refs_other X hs Y hY
+      subst hYt
+      simp only [sRank, hXt, hs, ↓reduceIte]
+      decide
+  · intro X
+    unfold sRank scanFuel
+    split <;> (try split) <;> omega
+
+/-- the file as `save_to_file` writes it after `/s/t := true`, `/s/a := 7`: `/s/a` first (table order) -/
+def sFile : List Line := [⟨"/s/a".toList, .plain [.int 7]⟩, ⟨"/s/t".toList, .plain [.bool true]⟩]
+
+theorem sFile_ok : sApp.FileOK sFile where
+  addr_nodup := by decide
+  line_ok := by intro l hl; simp [sFile] at hl; rcases hl with rfl | rfl <;> trivial
+  disjoint := by decide
+
+end Rtosc.Save.SelfExample
